@@ -1,5 +1,5 @@
 """axv engine: obligations, floors, known findings, evidence, exit status."""
-import json, os, sys, time, traceback, importlib
+import collections, json, os, sys, time, traceback, importlib
 from . import core
 
 VERIF = core.VERIF
@@ -121,28 +121,66 @@ def run_check(prop, tier, seed=0):
         progs[cfg or "default"] = core.Program(d)
         cache_hits[cfg or "default"] = hit
     prog = progs["default"]
-    cx = Cx(prop, tier, prog, progs)
-    crashed = None
-    try:
-        mod.check(cx)
-    except core.AnchorMissing as e:
-        cx.bad("engine", "anchor-missing", "", str(e))
-    except Exception as e:  # a crash of the checker is a broken check, reported loudly
-        crashed = traceback.format_exc()
-        cx.bad("engine", "checker-crash", "", crashed[-1500:])
-    cx.finish_floors()
+
+    def evaluate(q, qprogs):
+        """the rules on the plain program; obligations that fail there are re-evaluated on the inlined views (a function
+        together with the helpers of its source file it calls, see axvlib.inline) and count as violated only if they fail
+        on both - so that extracting or inlining a helper does not change a verdict"""
+        c1 = Cx(prop, tier, q, qprogs)
+        crash = None
+        try:
+            mod.check(c1)
+        except core.AnchorMissing as e:
+            c1.bad("engine", "anchor-missing", "", str(e))
+        except Exception:
+            crash = traceback.format_exc()
+            c1.bad("engine", "checker-crash", "", crash[-1500:])
+        c1.finish_floors()
+        failing = [o for o in c1.obl if o["status"] == "violation"]
+        if failing and not crash and not os.environ.get("AXV_NO_INLINE"):
+            for x in qprogs.values():
+                x.inline_mode = True
+            c2 = Cx(prop, tier, q, qprogs)
+            try:
+                mod.check(c2)
+                c2.finish_floors()
+                v2 = collections.defaultdict(dict)        # rule -> {key: obligation} violated on the inlined views
+                for o in c2.obl:
+                    if o["status"] == "violation":
+                        v2[o["rule"]][o["key"]] = o
+                by_rule = collections.defaultdict(list)
+                for o in failing:
+                    by_rule[o["rule"]].append(o)
+                for rid, obls in by_rule.items():
+                    keys1 = {o["key"] for o in obls}
+                    common = keys1 & set(v2.get(rid, {}))
+                    for o in obls:
+                        if not v2.get(rid) or (common and o["key"] not in common) or (not common):
+                            # the rule holds on the inlined views, or this instance does
+                            o["status"] = "ok"
+                            o["detail"] = "holds on the inlined view (the function together with the same-file helpers it calls)"
+                            r = c1.rules.get(rid)
+                            if r:
+                                r["violations"] = max(0, r["violations"] - 1)
+                                r["ok"] = r.get("ok", 0) + 1
+                    if v2.get(rid) and not common:
+                        # the rule fails on both, under different instance names (a helper is attributed to its callers on
+                        # the inlined views): report what the inlined evaluation names
+                        for k, o2 in v2[rid].items():
+                            c1._add(rid, k[len(rid) + 1:] if k.startswith(rid + ":") else k, "violation", o2["where"], o2["detail"])
+            except Exception:
+                pass        # the inlined evaluation is an attempt to discharge, never a source of alarms
+            finally:
+                for x in qprogs.values():
+                    x.inline_mode = False
+        return c1, crash
+
+    cx, crashed = evaluate(prog, progs)
     # thorough tier: the same rules on the facts of every other feature configuration
     for cfg, q in progs.items():
         if cfg == "default" or crashed:
             continue
-        sub = Cx(prop, tier, q, {"default": q, cfg: q})
-        try:
-            mod.check(sub)
-        except core.AnchorMissing as e:
-            sub.bad("engine", "anchor-missing", "", str(e))
-        except Exception:
-            sub.bad("engine", "checker-crash", "", traceback.format_exc()[-1500:])
-        sub.finish_floors()
+        sub, _ = evaluate(q, {"default": q, cfg: q})
         skip = set(getattr(mod, "CONFIG_DEPENDENT", {}).get(cfg, ()))
         for o in sub.obl:
             if o["key"] in skip:
